@@ -104,12 +104,12 @@ theorem real_text {d : Dom} {s : Str} {i : IdTree} {p : Id} (h : real d (.text s
     obtain ⟨_, r, hr, hk, hd, _⟩ := (by simpa [real] using h)
     simp [Dom.kindOf, IdTree.id, hr, hk, hd]
 
-theorem textNode_data (s : String) :
-    (match textNode s.toList with | .text t => String.ofList t | _ => "") = (if s = "" then " " else s) := by
+theorem textData (s : String) :
+    String.ofList (if s.toList = [] then [' '] else s.toList) = if s = "" then " " else s := by
   by_cases h : s = ""
   · subst h; rfl
   · have : ¬ s.toList = [] := by simpa using h
-    simp [textNode, this, h]
+    simp [this, h]
 
 theorem real_elem {d : Dom} {tag : Str} {attrs : List (Str × Str)} {kids : List HTree} {id : Id}
     {ks : List IdTree} {p : Id} (h : real d (.elem tag attrs kids) (.node id ks) p) :
@@ -143,16 +143,30 @@ theorem unit_step {d : Dom} {p : Id} {kids done : List Id} {todo : List IdTree} 
     (hc : Ctx d p kids) (hk : kids = done ++ todo.map IdTree.id)
     (hr : realL d (Html.Tree.comment [] :: ts') todo p) (hat : At p done c) :
     ∃ i ks rest, todo = .node i ks :: rest ∧ realL d ts' rest p ∧ nextPlaceholder d c = .ok i ∧
-      At p (done ++ [i]) ⟨i, .nextChild⟩ := by
+      At p (done ++ [i]) ⟨i, .nextChild⟩ ∧ d.kindOf i = some .comment := by
   obtain ⟨it, rest, htodo, hreal, hrest⟩ := realL_cons_inv hr
   cases it with
   | node i ks =>
     subst htodo
     have hstep := (next_node hc done i (rest.map IdTree.id) (by simpa [IdTree.id] using hk) c hat).2
-    have hkind := real_comment hreal
-    refine ⟨i, ks, rest, rfl, hrest, ?_, at_after p done i .nextChild (by decide) (by decide)⟩
-    simp [nextPlaceholder, hstep]
-    simpa [IdTree.id] using hkind
+    have hkind : d.kindOf i = some .comment := by simpa [IdTree.id] using real_comment hreal
+    refine ⟨i, ks, rest, rfl, hrest, ?_, at_after p done i .nextChild (by decide) (by decide), hkind⟩
+    simp [nextPlaceholder, hstep, hkind]
+
+theorem text_bound {d : Dom} {s : String} {i : Id} {ks : List IdTree} {p : Id}
+    (h : real d (textNode s.toList) (.node i ks) p) :
+    d.kindOf i = some .text ∧ bound d (.text i s) = true := by
+  have := real_text (i := .node i ks) (by simpa [textNode] using h)
+  simp only [IdTree.id] at this
+  refine ⟨this.1, ?_⟩
+  by_cases hs : s = ""
+  · subst hs
+    have h2 := this.2
+    simp at h2
+    simp [bound, this.1, h2]
+  · have h2 := this.2
+    simp [hs] at h2
+    simp [bound, this.1, h2, hs]
 
 mutual
 theorem hyd_view (d : Dom) : (v : View) → ∀ (p : Id) (kids done : List Id) (todo : List IdTree) (c : Cur)
@@ -160,7 +174,8 @@ theorem hyd_view (d : Dom) : (v : View) → ∀ (p : Id) (kids done : List Id) (
     realL d (dom v c.pos ++ ts') todo p → At p done c →
     ∃ consumed rest c', todo = consumed ++ rest ∧ realL d ts' rest p ∧
       hydrate d v c = .ok ⟨(adopt v c.pos todo).1, c', 0⟩ ∧ (adopt v c.pos todo).2 = rest ∧
-      At p (done ++ consumed.map IdTree.id) c' ∧ c'.pos = after true v c.pos
+      At p (done ++ consumed.map IdTree.id) c' ∧ c'.pos = after true v c.pos ∧
+      bound d (adopt v c.pos todo).1 = true
   | .text s, p, kids, done, todo, c, ts', hc, hk, _, hr, hat => by
     by_cases hpos : c.pos = .nextChildAfterText
     · -- a separator comment comes first
@@ -175,15 +190,15 @@ theorem hyd_view (d : Dom) : (v : View) → ∀ (p : Id) (kids done : List Id) (
           have hk' : kids = done ++ si :: i :: rest.map IdTree.id := by simpa [IdTree.id] using hk
           have hstep := (next_node hc done si (i :: rest.map IdTree.id) hk' c hat).2
           have hsib := sibling_next hc done si i (rest.map IdTree.id) hk'
-          have hkind := real_text htext
-          refine ⟨[.node si sks, .node i ks], rest, ⟨i, .nextChildAfterText⟩, by simp, hrest, ?_, ?_, ?_, ?_⟩
-          · simp only [hydrate, hstep, hpos, if_true, hsib, Option.getD_some]
-            have : d.kindOf i = some .text := by simpa [IdTree.id] using hkind
-            simp [this, adopt, hpos]
+          obtain ⟨hkind, hb⟩ := text_bound htext
+          refine ⟨[.node si sks, .node i ks], rest, ⟨i, .nextChildAfterText⟩, by simp, hrest, ?_, ?_, ?_, ?_, ?_⟩
+          · simp only [hydrate, textTarget, hstep, hpos, if_true, hsib, Option.getD_some]
+            simp [hkind, adopt]
           · simp [adopt, hpos]
           · have := at_after p (done ++ [si]) i .nextChildAfterText (by decide) (by decide)
             simpa [IdTree.id] using this
           · simp [after]
+          · simpa [adopt, hpos] using hb
     · simp only [dom, hpos, if_false, List.nil_append, List.cons_append] at hr
       obtain ⟨it, rest, htodo, htext, hrest⟩ := realL_cons_inv hr
       cases it with
@@ -191,58 +206,59 @@ theorem hyd_view (d : Dom) : (v : View) → ∀ (p : Id) (kids done : List Id) (
         subst htodo
         have hk' : kids = done ++ i :: rest.map IdTree.id := by simpa [IdTree.id] using hk
         have hstep := (next_node hc done i (rest.map IdTree.id) hk' c hat).2
-        have hkind := real_text htext
-        refine ⟨[.node i ks], rest, ⟨i, .nextChildAfterText⟩, by simp, hrest, ?_, ?_, ?_, ?_⟩
-        · simp only [hydrate, hstep, hpos, if_false]
-          have : d.kindOf i = some .text := by simpa [IdTree.id] using hkind
-          simp [this, adopt, hpos]
+        obtain ⟨hkind, hb⟩ := text_bound htext
+        refine ⟨[.node i ks], rest, ⟨i, .nextChildAfterText⟩, by simp, hrest, ?_, ?_, ?_, ?_, ?_⟩
+        · simp only [hydrate, textTarget, hstep, hpos, if_false]
+          simp [hkind, adopt, hpos]
         · simp [adopt, hpos]
         · simpa [IdTree.id] using at_after p done i .nextChildAfterText (by decide) (by decide)
         · simp [after]
+        · simpa [adopt, hpos] using hb
   | .unit, p, kids, done, todo, c, ts', hc, hk, _, hr, hat => by
     simp only [dom, List.cons_append, List.nil_append] at hr
-    obtain ⟨i, ks, rest, htodo, hrest, hnp, hat'⟩ := unit_step hc hk hr hat
+    obtain ⟨i, ks, rest, htodo, hrest, hnp, hat', hkind⟩ := unit_step hc hk hr hat
     subst htodo
     exact ⟨[.node i ks], rest, ⟨i, .nextChild⟩, by simp, hrest, by simp [hydrate, hnp, adopt],
-      by simp [adopt], by simpa [IdTree.id] using hat', by simp [after]⟩
+      by simp [adopt], by simpa [IdTree.id] using hat', by simp [after], by simp [adopt, bound, hkind]⟩
   | .onone, p, kids, done, todo, c, ts', hc, hk, _, hr, hat => by
     simp only [dom, List.cons_append, List.nil_append] at hr
-    obtain ⟨i, ks, rest, htodo, hrest, hnp, hat'⟩ := unit_step hc hk hr hat
+    obtain ⟨i, ks, rest, htodo, hrest, hnp, hat', hkind⟩ := unit_step hc hk hr hat
     subst htodo
     exact ⟨[.node i ks], rest, ⟨i, .nextChild⟩, by simp, hrest, by simp [hydrate, hnp, adopt],
-      by simp [adopt], by simpa [IdTree.id] using hat', by simp [after]⟩
+      by simp [adopt], by simpa [IdTree.id] using hat', by simp [after], by simp [adopt, bound, hkind]⟩
   | .osome v, p, kids, done, todo, c, ts', hc, hk, hw, hr, hat => by
-    obtain ⟨consumed, rest, c', h1, h2, h3, h4, h5, h6⟩ :=
+    obtain ⟨consumed, rest, c', h1, h2, h3, h4, h5, h6, h7⟩ :=
       hyd_view d v p kids done todo c ts' hc hk (by simpa [wfH] using hw) (by simpa [dom] using hr) hat
     exact ⟨consumed, rest, c', h1, h2, by simp [hydrate, h3, adopt], by simpa [adopt] using h4, h5,
-      by simpa [after] using h6⟩
+      by simpa [after] using h6, by simpa [adopt, bound] using h7⟩
   | .either _ _ v, p, kids, done, todo, c, ts', hc, hk, hw, hr, hat => by
-    obtain ⟨consumed, rest, c', h1, h2, h3, h4, h5, h6⟩ :=
+    obtain ⟨consumed, rest, c', h1, h2, h3, h4, h5, h6, h7⟩ :=
       hyd_view d v p kids done todo c ts' hc hk (by simpa [wfH] using hw) (by simpa [dom] using hr) hat
     exact ⟨consumed, rest, c', h1, h2, by simp [hydrate, h3, adopt], by simpa [adopt] using h4, h5,
-      by simpa [after] using h6⟩
+      by simpa [after] using h6, by simpa [adopt, bound] using h7⟩
   | .any _ v, p, kids, done, todo, c, ts', hc, hk, hw, hr, hat => by
-    obtain ⟨consumed, rest, c', h1, h2, h3, h4, h5, h6⟩ :=
+    obtain ⟨consumed, rest, c', h1, h2, h3, h4, h5, h6, h7⟩ :=
       hyd_view d v p kids done todo c ts' hc hk (by simpa [wfH] using hw) (by simpa [dom] using hr) hat
     exact ⟨consumed, rest, c', h1, h2, by simp [hydrate, h3, adopt], by simpa [adopt] using h4, h5,
-      by simpa [after] using h6⟩
+      by simpa [after] using h6, by simpa [adopt, bound] using h7⟩
   | .tuple vs, p, kids, done, todo, c, ts', hc, hk, hw, hr, hat => by
-    obtain ⟨consumed, rest, c', h1, h2, h3, h4, h5, h6⟩ :=
+    obtain ⟨consumed, rest, c', h1, h2, h3, h4, h5, h6, h7⟩ :=
       hyd_list d vs p kids done todo c ts' hc hk (by simpa [wfH] using hw) (by simpa [dom] using hr) hat
     exact ⟨consumed, rest, c', h1, h2, by simp [hydrate, h3, adopt], by simpa [adopt] using h4, h5,
-      by simpa [after] using h6⟩
+      by simpa [after] using h6, by simpa [adopt, bound] using h7⟩
   | .vec vs, p, kids, done, todo, c, ts', hc, hk, hw, hr, hat => by
-    obtain ⟨consumed, rest, c', h1, h2, h3, h4, h5, _⟩ :=
+    obtain ⟨consumed, rest, c', h1, h2, h3, h4, h5, _, h7⟩ :=
       hyd_list d vs p kids done todo c (Html.Tree.comment [] :: ts') hc hk (by simpa [wfH] using hw)
         (by simpa [dom, List.append_assoc] using hr) hat
     subst h1
     have hk2 : kids = (done ++ consumed.map IdTree.id) ++ rest.map IdTree.id := by simpa using hk
-    obtain ⟨i, ks, rest', hrest, hr', hnp, hat'⟩ := unit_step hc hk2 h2 h5
+    obtain ⟨i, ks, rest', hrest, hr', hnp, hat', hkind⟩ := unit_step hc hk2 h2 h5
     subst hrest
-    refine ⟨consumed ++ [.node i ks], rest', ⟨i, .nextChild⟩, by simp, hr', ?_, ?_, ?_, by simp [after]⟩
+    refine ⟨consumed ++ [.node i ks], rest', ⟨i, .nextChild⟩, by simp, hr', ?_, ?_, ?_, by simp [after], ?_⟩
     · simp [hydrate, h3, hnp, adopt, h4]
     · simp [adopt, h4]
     · simpa [IdTree.id, List.append_assoc] using hat'
+    · simp [adopt, h4, bound, h7, hkind]
   | .elem tag as child, p, kids, done, todo, c, ts', hc, hk, hw, hr, hat => by
     simp only [dom, List.cons_append, List.nil_append] at hr
     obtain ⟨it, rest, htodo, hel, hrest⟩ := realL_cons_inv hr
@@ -254,10 +270,11 @@ theorem hyd_view (d : Dom) : (v : View) → ∀ (p : Id) (kids done : List Id) (
       obtain ⟨hisel, hci, hkidsReal⟩ := real_elem hel
       simp only [wfH, Bool.and_eq_true] at hw
       obtain ⟨hshape, hwc⟩ := hw
-      refine ⟨[.node i ks], rest, ⟨i, .nextChild⟩, by simp, hrest, ?_, by simp only [adopt]; split <;> rfl,
-        by simpa [IdTree.id] using at_after p done i .nextChild (by decide) (by decide), by simp [after]⟩
       by_cases hskip : (!viewExists child || !escKids tag) = true
-      · simp [hydrate, hstep, hisel, hskip, adopt]
+      · refine ⟨[.node i ks], rest, ⟨i, .nextChild⟩, by simp, hrest, ?_, by simp only [adopt]; split <;> rfl,
+          by simpa [IdTree.id] using at_after p done i .nextChild (by decide) (by decide), by simp [after], ?_⟩
+        · simp [hydrate, elemTarget, hstep, hisel, hskip, adopt]
+        · simp [adopt, hskip, bound, hisel]
       · have hex : viewExists child = true ∧ escKids tag = true := by
           simpa [Bool.or_eq_true, not_or] using hskip
         have hnv : isVoidT tag = false := by
@@ -266,35 +283,39 @@ theorem hyd_view (d : Dom) : (v : View) → ∀ (p : Id) (kids done : List Id) (
           | true => simp [hv, hex.1] at hshape
         have hr2 : realL d (dom child (Cur.mk i Position.firstChild).pos ++ []) ks i := by
           simpa [hnv, hex.1] using hkidsReal
-        obtain ⟨consumed, rest2, c2, _, _, h3, _, _, _⟩ :=
+        obtain ⟨consumed, rest2, c2, _, _, h3, _, _, _, h7⟩ :=
           hyd_view d child i (ks.map IdTree.id) [] ks ⟨i, .firstChild⟩ [] hci (by simp) hwc hr2
             (Or.inl ⟨rfl, rfl, rfl⟩)
-        simp [hydrate, hstep, hisel, hex.1, hex.2, h3, adopt]
+        refine ⟨[.node i ks], rest, ⟨i, .nextChild⟩, by simp, hrest, ?_, by simp only [adopt]; split <;> rfl,
+          by simpa [IdTree.id] using at_after p done i .nextChild (by decide) (by decide), by simp [after], ?_⟩
+        · simp [hydrate, elemTarget, hstep, hisel, hex.1, hex.2, h3, adopt]
+        · simpa [adopt, hex.1, hex.2, bound, hisel] using h7
 theorem hyd_list (d : Dom) : (vs : List View) → ∀ (p : Id) (kids done : List Id) (todo : List IdTree)
     (c : Cur) (ts' : List HTree), Ctx d p kids → kids = done ++ todo.map IdTree.id → wfHL vs = true →
     realL d (domL vs c.pos ++ ts') todo p → At p done c →
     ∃ consumed rest c', todo = consumed ++ rest ∧ realL d ts' rest p ∧
       hydrateList d vs c = .ok ⟨(adoptL vs c.pos todo).1, c', 0⟩ ∧ (adoptL vs c.pos todo).2 = rest ∧
-      At p (done ++ consumed.map IdTree.id) c' ∧ c'.pos = afterL true vs c.pos
+      At p (done ++ consumed.map IdTree.id) c' ∧ c'.pos = afterL true vs c.pos ∧
+      boundL d (adoptL vs c.pos todo).1 = true
   | [], p, kids, done, todo, c, ts', _, _, _, hr, hat => by
     exact ⟨[], todo, c, by simp, by simpa [domL] using hr, by simp [hydrateList, adoptL], by simp [adoptL],
-      by simpa using hat, by simp [afterL]⟩
+      by simpa using hat, by simp [afterL], by simp [adoptL, boundL]⟩
   | v :: vs, p, kids, done, todo, c, ts', hc, hk, hw, hr, hat => by
     simp only [wfHL, Bool.and_eq_true] at hw
-    obtain ⟨c1, r1, c', h1, h2, h3, h4, h5, h6⟩ :=
+    obtain ⟨c1, r1, c', h1, h2, h3, h4, h5, h6, h7⟩ :=
       hyd_view d v p kids done todo c (domL vs (after true v c.pos) ++ ts') hc hk hw.1
         (by simpa [domL, List.append_assoc] using hr) hat
     subst h1
     have hk2 : kids = (done ++ c1.map IdTree.id) ++ r1.map IdTree.id := by simpa using hk
-    obtain ⟨c2, r2, c'', g1, g2, g3, g4, g5, g6⟩ :=
+    obtain ⟨c2, r2, c'', g1, g2, g3, g4, g5, g6, g7⟩ :=
       hyd_list d vs p kids (done ++ c1.map IdTree.id) r1 c' ts' hc hk2 hw.2 (by simpa [h6] using h2) h5
     subst g1
-    refine ⟨c1 ++ c2, r2, c'', by simp, g2, ?_, ?_, by simpa [List.append_assoc] using g5, ?_⟩
-    · rw [h6] at g3
-      simp [hydrateList, h3, g3, adoptL, h4]
-    · rw [h6] at g4
-      simp [adoptL, h4, g4]
+    rw [h6] at g3 g4 g7
+    refine ⟨c1 ++ c2, r2, c'', by simp, g2, ?_, ?_, by simpa [List.append_assoc] using g5, ?_, ?_⟩
+    · simp [hydrateList, h3, g3, adoptL, h4]
+    · simp [adoptL, h4, g4]
     · simpa [afterL, h6] using g6
+    · simp [adoptL, h4, boundL, h7, g7]
 end
 
 end Leptos.Hydrate
